@@ -443,6 +443,13 @@ def run(H):
             pairs = [(a, b) for a in shp for b in shp if broadcastable(a, b) is not None]
             if H.quick:
                 pairs = [pr for k, pr in enumerate(pairs) if (k + len(opname)) % (4 if g == 'SO3' else 7) == 0 or pr[0] == () or pr[1] == ()]
+            else:
+                # every pair of rank <= 2 / extents <= 2 (exhaustive), plus a deterministic stride through the rank-3 / extent-3 pairs
+                small = [pr for pr in pairs if len(pr[0]) <= 2 and len(pr[1]) <= 2 and max(pr[0] + pr[1] + (0,)) <= 2]
+                rest = [pr for pr in pairs if pr not in set(small)]
+                step = max(1, len(rest) // 120)
+                pairs = small + rest[(len(opname) + len(g)) % step::step]
+                H.notes.append('%s/%s: %d lshape pairs (all %d small ones + every %d-th of %d larger ones)' % (g, opname, len(pairs), len(small), step, len(rest)))
             for sa, sb in pairs:
                 n = 1
                 for s in broadcastable(sa, sb):
